@@ -64,6 +64,14 @@ try:
             res["checks"][pid]["infra"] = r.stdout[-600:]
 finally:
     sh(["git", "-C", "/repo", "worktree", "remove", "--force", wt])
+    # the check binaries and module files built against the scratch worktree
+    import glob, hashlib
+    tag = hashlib.sha256(os.path.abspath(wt).encode()).hexdigest()[:10]
+    for f in glob.glob(os.path.join(ROOT, ".run", "bin", "*-" + tag + "*")) + glob.glob(os.path.join(ROOT, ".run", "alt-" + tag + ".*")):
+        try:
+            os.remove(f)
+        except OSError:
+            pass
 print(json.dumps(res, indent=1))
 if res.get("valid"):
     os.makedirs(dst, exist_ok=True)
